@@ -31,7 +31,7 @@ def main():
     os.makedirs(verif)
     shutil.copy(os.path.join(V, "known_findings.txt"), verif)
     subprocess.check_call(["rsync", "-a", "--exclude", ".git", REPO + "/", repo + "/"])
-    checker = os.path.join(scratch, "hclcheck"); shutil.copy(os.path.join(V, "bin", "hclcheck"), checker)
+    checker = os.path.join(scratch, "hclcheck"); shutil.copy(os.environ.get("HCLCHECK_BIN") or os.path.join(V, "bin", "hclcheck"), checker)
     env = dict(os.environ, GOFLAGS="-mod=mod", GOPROXY="off", GOWORK="off")
     bad = 0
     try:
